@@ -57,6 +57,7 @@ func c03(r *core.Run) {
 	r.Rule("C03/R2", "path classes of the per-proof routine: each path performs exactly one of {credit} | {remove} | {remove, burn}; credit behind {proven=true ∨ young=true}; burn behind proven=false ∧ young=false; predicate arguments ⊵ Ctx.BlockHeight and Store(FileProof).LastProven")
 	r.Rule("C03/R3", "only counted provers are paid: the payout recipient ⊵ size-tracker keys only; amount ⊵ {tracker entry, total size, pulled coins}")
 	r.Rule("C03/R4", "the paid pool is what was pulled: the payout amount depends on every source of the gauge->module pull amount")
+	r.Rule("C03/R5", "the keys handed to the per-proof routine are exactly the processed file's prover list: file.Proofs itself or a per-file copy of len(file.Proofs) elements filled from it")
 	bb, _ := p.BlockEntries()
 	var entry *ssa.Function
 	for _, fn := range bb {
@@ -264,6 +265,56 @@ func c03(r *core.Run) {
 		}
 	}
 
+	// ---- R5 the list handed to the per-proof routine is exactly the file's prover list
+	if routine != nil {
+		nCall := 0
+		for _, caller := range p.CG().In[routine] {
+			allInstrs(caller, func(in ssa.Instruction) {
+				call, ok := in.(ssa.CallInstruction)
+				if !ok {
+					return
+				}
+				isR := false
+				for _, cal := range p.Callees(call) {
+					if cal == routine {
+						isR = true
+					}
+				}
+				if !isR {
+					return
+				}
+				nCall++
+				// key argument: the string argument; file argument: the *UnifiedFile argument
+				var keyArg, fileArg ssa.Value
+				for _, a := range call.Common().Args {
+					if a.Type().String() == "string" {
+						keyArg = a
+					}
+					if core.TypeName(a.Type()) == "x/storage/types.UnifiedFile" {
+						fileArg = a
+					}
+				}
+				if keyArg == nil || fileArg == nil {
+					r.Undecided("C03/R5", core.FnName(caller)+":per-proof-call-shape", p.InstrPos(call), "per-proof routine is not called with (file, key)")
+					return
+				}
+				// the key is an element of a slice S
+				var sl ssa.Value
+				if ld, ok := keyArg.(*ssa.UnOp); ok {
+					if ia, ok := ld.X.(*ssa.IndexAddr); ok {
+						sl = ia.X
+					}
+				}
+				ok5, why := false, "the key is not an element of a slice"
+				if sl != nil {
+					ok5, why = iterationListIsFileList(p, sl, fileArg)
+				}
+				r.Check(ok5, "C03/R5", core.FnName(caller)+":iterated-list=file-list", p.InstrPos(call), why, "the keys handed to the per-proof routine are not exactly the prover list of the file being processed ("+why+"): provers of other files can be credited or burned against this file")
+			})
+		}
+		r.Floor("C03/R5", nCall, 1, "per-proof routine call sites")
+	}
+
 	// ---- R3 / R4
 	insts := p.BankInstances(entry)
 	var pull, pay []core.BankInstance
@@ -318,4 +369,61 @@ func c03(r *core.Run) {
 		}
 		r.Check(len(missing) == 0, "C03/R4", "rewards:paid-pool-is-pulled", p.InstrPos(bo.Instr), "payout amount depends on every source of the pull amount", "the coins paid to provers are not the coins pulled from the gauges: missing "+strings.Join(missing, ", "))
 	}
+}
+
+// iterationListIsFileList: slice sl is file.Proofs itself, or a per-invocation copy of exactly len(file.Proofs)
+// elements filled from file.Proofs (make+copy or append to an empty slice).
+func iterationListIsFileList(p *core.Program, sl ssa.Value, file ssa.Value) (bool, string) {
+	isProofsOf := func(v ssa.Value) bool {
+		ld, ok := v.(*ssa.UnOp)
+		if !ok {
+			return false
+		}
+		fa, ok := ld.X.(*ssa.FieldAddr)
+		return ok && fa.X == file && core.FieldName(fa.X.Type(), fa.Field) == "Proofs"
+	}
+	switch x := sl.(type) {
+	case *ssa.UnOp:
+		if isProofsOf(x) {
+			return true, "iterates file.Proofs itself (R1 governs mutation)"
+		}
+		return false, "iterates a variable that outlives the file (a shared or captured buffer)"
+	case *ssa.MakeSlice:
+		// length must be len(file.Proofs)
+		lenOK := false
+		if c, ok := x.Len.(*ssa.Call); ok {
+			if b, ok := c.Call.Value.(*ssa.Builtin); ok && b.Name() == "len" && isProofsOf(c.Call.Args[0]) {
+				lenOK = true
+			}
+		}
+		if !lenOK {
+			return false, "the copy's length is not len(file.Proofs)"
+		}
+		filled := false
+		for _, r := range *x.Referrers() {
+			if c, ok := r.(*ssa.Call); ok {
+				if b, ok := c.Call.Value.(*ssa.Builtin); ok && b.Name() == "copy" && c.Call.Args[0] == ssa.Value(x) && isProofsOf(c.Call.Args[1]) {
+					filled = true
+				}
+			}
+		}
+		if !filled {
+			return false, "the copy is not filled from file.Proofs"
+		}
+		return true, "iterates a fresh copy: make(len(file.Proofs)) + copy(file.Proofs)"
+	case *ssa.Call:
+		if b, ok := x.Call.Value.(*ssa.Builtin); ok && b.Name() == "append" && len(x.Call.Args) == 2 && isProofsOf(x.Call.Args[1]) {
+			if c, ok := x.Call.Args[0].(*ssa.Const); ok && c.Value == nil {
+				return true, "iterates append(nil, file.Proofs...)"
+			}
+			if s2, ok := x.Call.Args[0].(*ssa.Slice); ok {
+				if _, ok := s2.X.(*ssa.Alloc); ok {
+					return true, "iterates append([]string{}, file.Proofs...)"
+				}
+			}
+		}
+	case *ssa.Phi:
+		return false, "iterates a buffer that is conditionally re-allocated (it can be longer than the file's list)"
+	}
+	return false, "iterates a slice that is not a fresh copy of file.Proofs"
 }
